@@ -3,7 +3,7 @@
 //@ strength proved-unbounded for the MultipleSubst, LigatureSubst, ContextSubst and ChainContextSubst arms of gsub_apply_lookup (bodies verbatim); the SingleSubst, AlternateSubst and ReverseChainSingleSubst arms are replaced by opaque calls (see `assume`)
 //@ min-verified 2
 //@ assume THREE ARMS ARE DROPPED: the loops of the SingleSubst / AlternateSubst arms (`for glyph in glyphs[start..(start + length)].iter_mut()`) and of the ReverseChainSingleSubst arm (`for i in (start..start + length).rev()`) use iterator forms Verus rejects; each is replaced, by an exact-text pattern, with a call of an opaque function that needs start + length <= glyphs.len() (the slice / index bound those loops rely on) and leaves the run's length unchanged (they only assign fields of existing glyphs). If the text of such an arm changes the pattern no longer applies and the unit ends undecided, not in an alarm
-//@ assume multiplesubst carries the contract PROVED in unit C04_mult (Ok(Some(n)): the run grew by n - 1; otherwise unchanged); Ligature::apply's PROVED contract (C04_lig) gives ligaturesubst: Ok(Some((removed, skip))): the run shrank by `removed`, i + skip + 1 <= old length; contextsubst / chaincontextsubst return apply_subst_context's result, contract PROVED in unit C02_ctx (length change, i + input_length inside the run, span >= 1)
+//@ assume multiplesubst carries the contract PROVED in unit C04_mult (Ok(Some(n)): the run grew by n - 1; otherwise unchanged); ligaturesubst carries the contract PROVED in unit C04_ligs: Ok(Some((removed, skip))): the run shrank by `removed`, i + skip + 1 <= old length; contextsubst / chaincontextsubst return apply_subst_context's result, contract PROVED in unit C02_ctx (length change, i + input_length inside the run, span >= 1)
 //@ assume a Vec<RawGlyph> holds at most usize::MAX / 2 elements (Rust allocation limit, element size >= 2): precondition here, postcondition of every stub that may grow the run
 //@ assume LookupList::lookup_cache_gsub returns some cached lookup or an error; Rc is replaced by Box (only dereferenced); MatchType::from_lookup_flag / match_glyph are uninterpreted here (Kani unit C04_flag); `pred` may be called on any glyph
 //@ unverified which glyphs each arm rewrites (content): units C04_single / C04_mult / C04_lig; SUBST_RECURSION_LIMIT threading
@@ -90,7 +90,7 @@ pub fn multiplesubst<T: GlyphData>(subtables: &Vec<MultipleSubst>, i: usize, gly
         final(glyphs)@.len() <= usize::MAX / 2,
 { unimplemented!() }
 
-/// from Ligature::apply's contract proved in unit C04_lig: (removed, skip)
+/// contract proved in unit C04_ligs (which builds on Ligature::apply, unit C04_lig): (removed, skip)
 #[verifier::external_body]
 pub fn ligaturesubst<T: GlyphData>(opt_gdef_table: Option<&GDEFTable>, subtables: &Vec<LigatureSubst>, match_type: MatchType, i: usize, glyphs: &mut Vec<RawGlyph<T>>)
     -> (r: Result<Option<(usize, usize)>, ParseError>)
